@@ -65,14 +65,34 @@ PadIdx(i, T, mode) ==
     [] mode = "wrap"      -> i % T
     [] mode = "symmetric" -> Refl(i, T)
     [] mode = "reflect"   -> IF T = 1 THEN 0 ELSE LET m == i % (2 * T - 2) IN IF m < T THEN m ELSE 2 * T - 2 - m
+\* Modes whose padded values are combinations of samples rather than copies of one sample, and depend on the
+\* width w of the extension: "linear_ramp" (from the edge sample down to end value 0, numpy.linspace without the
+\* end point) and "mean" (of the whole axis).  A position is a sequence of <<source position, numerator>> over
+\* the common denominator PadDen.
+PadDen(T, mode, w) == CASE mode = "linear_ramp" -> (IF w = 0 THEN 1 ELSE w)
+                        [] mode = "mean" -> T
+                        [] OTHER -> 1
+PadTerms(i, T, mode, w) ==
+  IF i >= 0 /\ i < T THEN << <<i, PadDen(T, mode, w)>> >>
+  ELSE CASE mode = "linear_ramp" -> LET j == IF i < 0 THEN -i ELSE i - T + 1    \* distance beyond the edge, 1..w
+                                    IN << <<(IF i < 0 THEN 0 ELSE T - 1), w - j>> >>
+         [] mode = "mean" -> [p \in 1..T |-> <<p - 1, 1>>]
+         [] OTHER -> << <<PadIdx(i, T, mode), 1>> >>
+RECURSIVE Cat(_, _)
+Cat(ss, n) == IF n = 0 THEN <<>> ELSE Cat(ss, n - 1) \o ss[n]
 \* order-k delta of the cell with multi-index o (on input shape sh), filtered along axis position a:
-\* sequence of <<source flat, numerator>>
+\* the k-fold filter on the axis extended by k W samples to either side; sequence of <<source flat, numerator>>
+\* over the denominator DeltaDen
+DeltaDen(T, k, W, mode) == Den(k, W) * PadDen(T, mode, k * W)
 DeltaTerms(o, sh, a, k, W, mode) ==
   LET f == Filt(k, W)
       T == sh[a]
-  IN [m \in 1..Len(f) |->
-        LET p == PadIdx(o[a] + (m - 1) - k * W, T, mode)
-        IN << (IF p < 0 THEN -1 ELSE Flat([d \in 1..Len(sh) |-> IF d = a THEN p ELSE o[d]], sh)), f[m] >>]
+      per == [m \in 1..Len(f) |->
+                LET pt == PadTerms(o[a] + (m - 1) - k * W, T, mode, k * W)
+                IN [q \in 1..Len(pt) |->
+                      << (IF pt[q][1] < 0 THEN -1 ELSE Flat([d \in 1..Len(sh) |-> IF d = a THEN pt[q][1] ELSE o[d]], sh)),
+                         f[m] * pt[q][2] >>]]
+  IN Cat(per, Len(per))
 \* output shape: concatenated along, or stacked on a new axis at, target position
 DeltaShape(sh, tgt, K, cat) ==
   IF cat THEN [d \in 1..Len(sh) |-> IF d = tgt THEN sh[d] * (K + 1) ELSE sh[d]]
@@ -86,7 +106,7 @@ DeltaCell(flat, sh, tgt, K, cat) ==
 DeltaMap(sh, a, tgt, K, cat, W, mode) ==
   LET osh == DeltaShape(sh, tgt, K, cat) IN
   [i \in 1..Size(osh) |-> LET c == DeltaCell(i - 1, sh, tgt, K, cat)
-                          IN [den |-> Den(c.k, W), terms |-> DeltaTerms(c.o, sh, a, c.k, W, mode)]]
+                          IN [den |-> DeltaDen(sh[a], c.k, W, mode), terms |-> DeltaTerms(c.o, sh, a, c.k, W, mode)]]
 
 (* ---------------- internal consistency (TLC evaluates these) ------------- *)
 \* value of a combination for an integer-valued input x (sequence over flat indices), times den
@@ -110,7 +130,21 @@ C15_Stack2DEqualsReshape ==
 C15_ShapeRule ==
   \A T \in 0..5 : \A V \in 1..4 : \A pad \in {"none", "edge"} :
     StackShape(<<T, 2, 3>>, 3, 1, V, pad)[1] = (IF pad = "none" THEN T \div V ELSE (T + V - 1) \div V)
+\* the ramp and mean extensions, stated directly on a sequence: value (times the denominator) of extended position t
+ExtVal(x, t, mode, w) ==
+  LET T == Len(x) IN
+  IF t >= 0 /\ t < T THEN x[t + 1] * PadDen(T, mode, w)
+  ELSE IF mode = "linear_ramp" THEN (IF t < 0 THEN x[1] * (w + t) ELSE x[T] * (w - (t - T + 1)))
+  ELSE LET S[i \in 0..T] == IF i = 0 THEN 0 ELSE S[i - 1] + x[i] IN S[T]
+C15_WidthDependentModes ==
+  \A T \in 1..4 : \A W \in 1..2 : \A k \in 1..2 : \A mode \in {"linear_ramp", "mean"} :
+    \A x \in {[i \in 1..T |-> ((i * i * 3 + i) % 7) - 3], [i \in 1..T |-> IF i = 1 THEN 5 ELSE 0], [i \in 1..T |-> i]} :
+      \A t \in 0..(T - 1) :
+        LET f == Filt(k, W)
+            S[m \in 0..Len(f)] == IF m = 0 THEN 0 ELSE S[m - 1] + f[m] * ExtVal(x, t + (m - 1) - k * W, mode, k * W)
+        IN Eval(DeltaTerms(<<t>>, <<T>>, 1, k, W, mode), x) = S[Len(f)]
 ASSUME C15_DeltaIsKaldiRecursion
+ASSUME C15_WidthDependentModes
 ASSUME C15_Stack2DEqualsReshape
 ASSUME C15_ShapeRule
 ===============================================================================
